@@ -147,14 +147,14 @@ func canonTo(sb *strings.Builder, n *N) {
 		sb.WriteString(" ")
 		canonTo(sb, c)
 	}
-	if n.B != nil || n.K == "file" {
+	if len(n.B) > 0 || n.K == "file" {
 		sb.WriteString(" B[")
 		for _, c := range n.B {
 			canonTo(sb, c)
 		}
 		sb.WriteString("]")
 	}
-	if n.C != nil {
+	if len(n.C) > 0 {
 		sb.WriteString(" C[")
 		for _, c := range n.C {
 			canonTo(sb, c)
